@@ -276,6 +276,90 @@ class LLAdapter(Adapter):
         return out
 
 
+class CtrlAdapter(Adapter):
+    """chi.ProblemModellingController: fix_parameters on the controller, then the posterior it builds.  Without a
+    population model the mechanistic and error-model parameters can be fixed; with one, its population parameters.
+    The log-prior is reset by fixing (documented), so a prior of the right dimension is set before the posterior is
+    requested and the comparison is made on the log-likelihood the posterior holds."""
+
+    slow = True
+
+    def __init__(self, mode):
+        self.mode = mode
+        self.name = 'ProblemModellingController[%s]' % mode
+        self._names = self._plain().get_parameter_names()
+        self.own = ({'a': 'P2', 'b': 'Y1 Sigma', 'c': 'Y2 Sigma rel.'} if mode == 'indiv' else
+                    {'a': 'Log std. P1', 'b': 'Pooled Y1 Sigma', 'c': 'Mean Y2 Sigma rel.'})
+
+    def _frame(self):
+        import pandas as pd
+        rows = []
+        data = [([1.2, 2.0, 1.7], [2.5, 3.1]), ([1.0, 1.9, 1.5], [2.2, 3.0]), ([1.4, 2.2, 1.6], [2.4, 2.8])]
+        for i, (ya, yb) in enumerate(data):
+            for t, y in zip([0.5, 1.0, 2.0], ya):
+                rows.append(dict(ID=i + 1, Time=t, Observable='A', Value=y))
+            for t, y in zip([1.0, 1.5], yb):
+                rows.append(dict(ID=i + 1, Time=t, Observable='B', Value=y))
+        return pd.DataFrame(rows)
+
+    def _plain(self):
+        mech = probes.ProbeMech(2, 2, tag='fixctrl')
+        c = chi.ProblemModellingController(mech, [chi.GaussianErrorModel(), chi.ConstantAndMultiplicativeGaussianErrorModel()])
+        c.set_data(self._frame(), output_observable_dict={'Y1': 'A', 'Y2': 'B'})
+        if self.mode == 'pop':
+            c.set_population_model(chi.ComposedPopulationModel([
+                chi.LogNormalModel(dim_names=['P1']), chi.PooledModel(n_dim=3, dim_names=['P2', 'Y1 Sigma', 'Y2 Sigma base']),
+                chi.GaussianModel(dim_names=['Y2 Sigma rel.'])]))
+        return c
+
+    def all_names(self):
+        return list(self._names)
+
+    def base_values(self):
+        if self.mode == 'indiv':
+            return [1.0, 0.8, 0.6, 0.5, 0.3]
+        return [{'Log mean P1': 0.1, 'Log std. P1': 0.4, 'Mean Y2 Sigma rel.': 0.3, 'Std. Y2 Sigma rel.': 0.2}.get(n, 0.7)
+                for n in self._names]
+
+    def make(self):
+        return self._plain()
+
+    def plain(self):
+        return self._plain()
+
+    def names(self, obj):
+        return list(obj.get_parameter_names())
+
+    def nparams(self, obj):
+        return int(obj.get_n_parameters())
+
+    def evaluate(self, obj, v, full_mask=None):
+        import pints
+        v = np.array(v, dtype=float)
+        n = obj.get_n_parameters()
+        obj.set_log_prior(pints.ComposedLogPrior(*[pints.GaussianLogPrior(1.0, 2.0) for _ in range(n)]))
+        out = {}
+        if self.mode == 'indiv':
+            for ind in ('1', '3'):
+                ll = obj.get_log_posterior(individual=ind).get_log_likelihood()
+                s, g = ll.evaluateS1(v)
+                g = np.asarray(g, dtype=float)
+                out.update({'call' + ind: ll(v), 's1_score' + ind: s, 's1_' + ind: g if full_mask is None else g[~full_mask],
+                            'pw' + ind: ll.compute_pointwise_ll(v)})
+            return out
+        hl = obj.get_log_posterior().get_log_likelihood()
+        nb = hl.n_parameters() - hl.n_parameters(exclude_bottom_level=True)
+        bottom = np.array([1.1, 0.35, 0.9, 0.25, 1.3, 0.3])[:nb]         # (P1, Y2 Sigma rel.) per individual
+        x = np.concatenate([bottom, v])
+        s, g = hl.evaluateS1(x)
+        g = np.asarray(g, dtype=float)
+        if full_mask is not None:
+            g = np.concatenate([g[:nb], g[nb:][~full_mask]])
+        out.update(call=hl(x), s1_score=s, s1=g, n_bottom=nb,
+                   marked=sum(1 for i in hl.get_id() if i is not None))
+        return out
+
+
 class PMAdapter(LLAdapter):
     name = 'PredictiveModel'
 
@@ -292,9 +376,42 @@ class PMAdapter(LLAdapter):
                     sample_again=obj.sample(v, [2.0, 0.5, 1.0], n_samples=2, seed=3, return_df=False))
 
 
+class PPMAdapter(Adapter):
+    """chi.PopulationPredictiveModel: population parameters are fixed, samples are compared under the same seed"""
+    name = 'PopulationPredictiveModel'
+
+    def __init__(self):
+        self._names = self._plain().get_parameter_names()
+        self.own = {'a': 'Log std. Dim. 1', 'b': 'Pooled Dim. 2', 'c': 'Mean Dim. 1'}
+
+    def _plain(self):
+        pm = chi.PredictiveModel(probes.ProbeMech(2, 1, tag='fixppm'), [chi.ConstantAndMultiplicativeGaussianErrorModel()])
+        pop = chi.ComposedPopulationModel([chi.LogNormalModel(), chi.PooledModel(n_dim=2), chi.GaussianModel(centered=False)])
+        return chi.PopulationPredictiveModel(pm, pop)
+
+    def all_names(self):
+        return list(self._names)
+
+    def base_values(self):
+        return [0.3 if n.startswith('Log std') else 0.05 if n.startswith('Std') else 0.1 if n.startswith('Log mean') else 0.6
+                for n in self._names]
+
+    def make(self):
+        return self._plain()
+
+    def plain(self):
+        return self._plain()
+
+    def evaluate(self, obj, v, full_mask=None):
+        v = np.array(v, dtype=float)
+        return dict(sample=obj.sample(v, [2.0, 0.5, 1.0], n_samples=3, seed=4, return_df=False),
+                    sample_again=obj.sample(v, [2.0, 0.5, 1.0], n_samples=3, seed=4, return_df=False))
+
+
 def adapters():
     return [ErrAdapter('G'), ErrAdapter('M'), ErrAdapter('C'), ErrAdapter('L'), MechAdapter(False), MechAdapter(True),
-            PopAdapter('gauss2'), PopAdapter('composed'), PopAdapter('covariate'), LLAdapter(), PMAdapter()]
+            PopAdapter('gauss2'), PopAdapter('composed'), PopAdapter('covariate'), LLAdapter(), PMAdapter(),
+            CtrlAdapter('indiv'), CtrlAdapter('pop'), PPMAdapter()]
 
 
 _ADAPTERS = {}
